@@ -405,10 +405,14 @@ func (s *c11sm) queuedWriter(t *rapid.T) {
 	s.trace = append(s.trace, fmt.Sprintf("queuedWriter:%s:commit=%v", name, commit))
 }
 
+var errAbandon = fmt.Errorf("c11: callback abandoned")
+
 func (s *c11sm) writeTx(t *rapid.T) {
 	work := s.committed.clone()
 	nops := rapid.IntRange(1, 14).Draw(t, "nops")
-	ending := rapid.SampledFrom([]string{"commit", "commit", "commit", "error", "rollback"}).Draw(t, "ending")
+	// "abandon": the callback of Update does not return (it panics after its writes); the caller recovers
+	// and rolls the abandoned transaction back
+	ending := rapid.SampledFrom([]string{"commit", "commit", "commit", "commit", "error", "rollback", "abandon"}).Draw(t, "ending")
 	deletedInTx := map[string]bool{}
 	putSeq := map[string]string{} // per key: sequence of p/d in this tx
 	wrote := false
@@ -636,6 +640,50 @@ func (s *c11sm) writeTx(t *rapid.T) {
 		}
 		body(tx)
 		err = tx.Rollback()
+	} else if ending == "abandon" {
+		var leaked mwdb.DBTransaction
+		func() {
+			defer func() {
+				if r := recover(); r != nil && r != errAbandon {
+					panic(r) // a failure of the check itself (rapid's own panic)
+				}
+			}()
+			_ = mwdb.Update(s.db, func(tx mwdb.DBTransaction) error {
+				leaked = tx
+				if e := body(tx); e != nil {
+					return e
+				}
+				panic(errAbandon)
+			})
+		}()
+		if leaked != nil {
+			// Is the abandoned transaction still open? A second writer tells: it gets the writer lock only
+			// once the first transaction has ended. If it waits, the caller gives the abandoned
+			// transaction up (Rollback); if it does not, Update has ended the transaction itself - ending
+			// it a second time is not defined - and what counts is what is visible below.
+			got := make(chan mwdb.DBTransaction, 1)
+			go func() {
+				tx2, err := s.db.BeginTx()
+				if err != nil {
+					tx2 = nil
+				}
+				got <- tx2
+			}()
+			select {
+			case tx2 := <-got:
+				if tx2 != nil {
+					tx2.Rollback()
+				}
+			case <-time.After(40 * time.Millisecond):
+				_ = leaked.Rollback()
+				if tx2 := <-got; tx2 != nil {
+					tx2.Rollback()
+				}
+			}
+		}
+		if wrote {
+			s.flags["abandoned-with-writes"] = true
+		}
 	} else {
 		err = mwdb.Update(s.db, body)
 	}
